@@ -113,7 +113,11 @@ func discharge(obls []*Obligation, workDir string, tier string, jobs int) {
 			var outs []string
 			if o.Cover || o.Must {
 				// covers and canaries only guard against vacuity: unsat is the interesting answer, keep them cheap
-				st1, out1, d1 := runSolver(solvers[0], file, 1)
+				cb := 1
+				if tier == "thorough" {
+					cb = 20 // the thorough tier gives the vacuity covers a real chance to come back sat
+				}
+				st1, out1, d1 := runSolver(solvers[0], file, cb)
 				o.Status, o.Solver, o.Secs = st1, solvers[0].name, d1
 				if st1 != "unsat" && st1 != "sat" {
 					o.Status = "unknown"
